@@ -48,6 +48,10 @@ pub struct Scen {
     /// replica, the chain replay and the protocol probe are left to the thorough tier
     #[serde(default)]
     pub short: bool,
+    /// the other replica's next sync (with its own change) reaches the backend before the
+    /// interrupted replica comes back (before its handle is re-opened after a stop)
+    #[serde(default)]
+    pub other_first: bool,
 }
 
 thread_local! {
@@ -285,21 +289,36 @@ pub fn run_scenario(sc: &Scen, record_only: bool) -> Result<Vec<String>, String>
         }
         // continue: restart (new handle) or the same handle
         let keep = !stopped && sc.reuse_handle;
-        let mut ha: Box<dyn Server> = if keep {
-            if let Some(c) = probe_as_cloud(&mut probe) {
-                c.set_gate(None);
-            }
-            probe
-        } else {
-            drop(probe);
-            b.open(0).await
+        // a stopped process is gone (its handle with it) before anybody else moves
+        let mut probe = if keep { Some(probe) } else { None };
+        let mut hb_early: Option<Box<dyn Server>> = None;
+        if sc.other_first {
+            // the other replica, with its own change, gets to the backend first
+            let tb = tasks_of(&mut bb).await;
+            commit(&mut bb, vec![upd(1, "q", "fromB", &tb), Operation::Create { uuid: tid(3) }]).await;
+            let mut hb = b.open(1).await;
+            sync(&mut bb, &mut hb).await.map_err(|e| format!("other-replica-stuck: another replica cannot sync after the fault: {e}"))?;
+            hb_early = Some(hb);
+        }
+        let mut ha: Box<dyn Server> = match probe.take() {
+            Some(p) => p,
+            None => b.open(0).await,
         };
         sync(&mut a, &mut ha).await.map_err(|e| format!("interrupted-replica-stuck: the interrupted replica cannot sync again: {e}"))?;
-        // another replica with its own change
-        let tb = tasks_of(&mut bb).await;
-        commit(&mut bb, vec![upd(1, "q", "fromB", &tb), Operation::Create { uuid: tid(3) }]).await;
-        let mut hb = b.open(1).await;
-        sync(&mut bb, &mut hb).await.map_err(|e| format!("other-replica-stuck: another replica cannot sync after the fault: {e}"))?;
+        let mut hb = match hb_early {
+            Some(mut hb) => {
+                sync(&mut bb, &mut hb).await.map_err(|e| format!("other-replica-stuck: second sync of the other replica failed: {e}"))?;
+                hb
+            }
+            None => {
+                // another replica with its own change
+                let tb = tasks_of(&mut bb).await;
+                commit(&mut bb, vec![upd(1, "q", "fromB", &tb), Operation::Create { uuid: tid(3) }]).await;
+                let mut hb = b.open(1).await;
+                sync(&mut bb, &mut hb).await.map_err(|e| format!("other-replica-stuck: another replica cannot sync after the fault: {e}"))?;
+                hb
+            }
+        };
         sync(&mut a, &mut ha).await.map_err(|e| format!("interrupted-replica-stuck: second sync of the interrupted replica failed: {e}"))?;
         if sc.short {
             drop((ha, hb));
@@ -367,15 +386,18 @@ fn probe_as_cloud(_p: &mut Box<dyn Server>) -> Option<&mut verif::VerifCloudServ
 }
 
 fn scenarios_for(backend: BackendKind, target: Target) -> Result<Vec<Scen>, String> {
-    let rec = Scen { backend, target, point: usize::MAX, fault: Fault::Stop, reuse_handle: false, short: false };
+    let rec = Scen { backend, target, point: usize::MAX, fault: Fault::Stop, reuse_handle: false, short: false, other_first: false };
     let points = run_scenario(&rec, true).map_err(|e| format!("recording run failed for {backend:?}/{target:?}: {e}"))?;
     let mut v = vec![];
     for k in 0..points.len() {
         let faults: Vec<Fault> = if backend == BackendKind::Cloud { vec![Fault::ErrorBefore, Fault::ErrorAfter, Fault::Stop] } else { vec![Fault::ErrorBefore, Fault::Stop] };
         for f in faults {
-            v.push(Scen { backend, target, point: k, fault: f, reuse_handle: false, short: false });
+            v.push(Scen { backend, target, point: k, fault: f, reuse_handle: false, short: false, other_first: false });
             if f != Fault::Stop {
-                v.push(Scen { backend, target, point: k, fault: f, reuse_handle: true, short: false });
+                v.push(Scen { backend, target, point: k, fault: f, reuse_handle: true, short: false, other_first: false });
+            } else {
+                // a stopped process stays away while the other replica syncs
+                v.push(Scen { backend, target, point: k, fault: f, reuse_handle: false, short: false, other_first: true });
             }
         }
     }
@@ -425,7 +447,7 @@ pub fn run(opts: &Opts) -> i32 {
                 return 2;
             }
         };
-        let rec = Scen { backend, target, point: usize::MAX, fault: Fault::Stop, reuse_handle: false, short: false };
+        let rec = Scen { backend, target, point: usize::MAX, fault: Fault::Stop, reuse_handle: false, short: false, other_first: false };
         let points = run_scenario(&rec, true).unwrap_or_default();
         let scs: Vec<Scen> = if q && backend == BackendKind::GitRemote {
             // every fault kind from the commit on; before it only a process stop with the files
@@ -458,8 +480,8 @@ pub fn run(opts: &Opts) -> i32 {
                     let class = e.split(':').next().unwrap_or("").to_string();
                     let pname = points.get(sc.point).cloned().unwrap_or_default();
                     rep.violation(Violation::new(
-                        format!("{class}:{backend:?}:{target:?}:{}:{:?}", point_class(&pname), sc.fault),
-                        format!("{e} [fault {:?} at step {} ({pname}) of {target:?} on {backend:?}, reuse_handle={}]", sc.fault, sc.point, sc.reuse_handle),
+                        format!("{class}:{backend:?}:{target:?}:{}:{:?}{}", point_class(&pname), sc.fault, if sc.other_first { ":other-first" } else { "" }),
+                        format!("{e} [fault {:?} at step {} ({pname}) of {target:?} on {backend:?}, reuse_handle={}, other_first={}]", sc.fault, sc.point, sc.reuse_handle, sc.other_first),
                         json!({"kind": "c11-scenario", "scenario": sc, "point_name": pname, "observed": e}),
                     ));
                 }
